@@ -154,6 +154,8 @@ class Skin(Controller):
             self.index = newshape
         except BaseException:
             raise DaeMalformedError('Corrupted vcounts or index in skin weights')
+        if self.nindices * at != len(self.vertex_weight_index):
+            raise DaeMalformedError('Index in skin weights is longer than its vcounts')
 
         try:
             self.joint_index = [influence[:, self.offsets[0]] for influence in self.index]
